@@ -18,6 +18,19 @@ impl DinfBox {
     }
 }
 
+#[cfg(mp4_verif)]
+impl DinfBox {
+    /// Verification hook: build a `dinf` around a given `dref` (the field is private).
+    pub fn verif_new(dref: DrefBox) -> Self {
+        DinfBox { dref }
+    }
+
+    /// Verification hook: the contained `dref`.
+    pub fn verif_dref(&self) -> &DrefBox {
+        &self.dref
+    }
+}
+
 impl Mp4Box for DinfBox {
     fn box_type(&self) -> BoxType {
         self.get_type()
